@@ -27,6 +27,7 @@ type Obligation struct {
 	Modules map[string]bool
 	Info    string // human-readable description (source expr)
 	Excuse  Term   // optional: known-finding excuse (set by matcher)
+	OnlyProps bool // Props come from the clause label: the obligation belongs to exactly these properties
 	// results
 	Status  string // proved, failed, unknown, error
 	Backend string
@@ -806,6 +807,20 @@ func (st *State) oblige(kind, label string, goal Term, info string) {
 	o := &Obligation{Name: name, Kind: kind, Fn: vc.key, lines: st.lines, Goal: goal, Info: info, Mode: vc.mode}
 	if vc.fc != nil {
 		o.Props = vc.fc.Props
+	}
+	// a clause label "name@C18@C03" restricts the obligation to those properties
+	if i := strings.Index(label, "@C"); i >= 0 {
+		var ps []string
+		for _, part := range strings.Split(label[i+1:], "@") {
+			part = strings.SplitN(part, ".", 2)[0]
+			if len(part) >= 3 && part[0] == 'C' && part[1] >= '0' && part[1] <= '9' {
+				ps = append(ps, part)
+			}
+		}
+		if len(ps) > 0 {
+			o.Props = ps
+			o.OnlyProps = true
+		}
 	}
 	o.Modules = map[string]bool{}
 	for m := range vc.modules {
